@@ -340,6 +340,13 @@ let handle_line (line : String.t) : unit =
       | "unescape_attr" -> hex_of_bytes (unescape true s)
       | _ -> failwith ("unknown function " ^ name) in
     print_string ("V " ^ out ^ "\n")
+  | ["RC"; vals; sets] ->
+    (* recursiveCheck: components (comma-separated hex, "_" = none), sub-handlers as finite sets (";"-separated lists) *)
+    let hx s = if s = "e" then [] else bytes_of_hex s in   (* "e" = the empty string *)
+    let hl s = if s = "_" then [] else List.map hx (String.split_on_char ',' s) in
+    let one s = if s = "-" then [] else hl s in
+    let (r, c) = rc_sets (hl vals) (List.map one (String.split_on_char ';' sets)) in
+    print_string ("V " ^ (if r then "1" else "0") ^ " " ^ string_of_int (int_of_nat c) ^ "\n")
   | ["EQFOLD"; a; b] -> print_string (if equal_fold (bytes_of_hex a) (bytes_of_hex b) then "V 1\n" else "V 0\n")
   | ["DUMP"; id] -> dump_policy (get_policy id)
   | ["DUMPSHIPPED"; which] ->
